@@ -885,8 +885,21 @@ impl<'a, 'b> Gen<'a, 'b> {
                 _ => None,
             })
             .collect();
-        let k = self.t.weighted(&[10, if self.cfg.funcs { 4 } else { 0 }, if self.cfg.modules { 2 } else { 0 }, 1, 2, if self.cfg.funcs { 2 } else { 0 }, if tuples_in_scope.is_empty() { 0 } else { 3 }]);
+        let k = self.t.weighted(&[10, if self.cfg.funcs { 4 } else { 0 }, if self.cfg.modules { 2 } else { 0 }, 1, 2, if self.cfg.funcs { 2 } else { 0 }, if tuples_in_scope.is_empty() { 0 } else { 3 }, 1]);
         match k {
+            7 => {
+                // lists of different lengths and element types joined (no binding: the result has
+                // no type of this generator's)
+                self.mark("mixed-list-concatenation");
+                let mut side = |g: &mut Self| -> E {
+                    let n = g.t.choice(5);
+                    let mixed = g.t.chance(1, 2);
+                    E::List((0..n).map(|i| if mixed && i % 2 == 1 { E::Str(STRS[g.t.choice(STRS.len())].to_string()) } else { E::Int(g.t.range(0, 9)) }).collect())
+                };
+                let l = side(self);
+                let r = side(self);
+                Stmt::Expr(E::Bin(Op::Add, Box::new(l), Box::new(r)))
+            }
             6 => {
                 // a copy of a tuple that is in scope
                 let fs = tuples_in_scope[self.t.choice(tuples_in_scope.len())].clone();
